@@ -207,7 +207,23 @@ func init() {
 		}
 	})
 
+	reg("failsM3x2", "3 types, <=2 converters of <=2 inputs with error results, every subset failing (a failing converter reached inside the nested resolution of a multi-input converter)", chainsX(3, 2, true, 2, false))
+	reg("failsnil3x2", "as fails3x2, but a failing converter returns a non-nil error interface holding a nil pointer; at most one failing converter per scenario", chainsX(3, 2, true, 1, true))
 	chains := func(ntypes, maxConvs int, hasErr bool) func(size int, emit func(Scenario)) {
+		return chainsX(ntypes, maxConvs, hasErr, 1, false)
+	}
+	reg("chains3x2", "unlabelled, 3 types, <=2 converters of <=2 inputs, 1-2 parameters, <=2 inputs (every 1-/2-cycle, self- and mutually dependent converters, providers)", chains(3, 2, false))
+	reg("chains3x3", "as chains3x2 with <=3 converters", chains(3, 3, false))
+	reg("chains4x2", "as chains3x2 over 4 types", chains(4, 2, false))
+	reg("chains4x3", "as chains3x2 over 4 types with <=3 converters", chains(4, 3, false))
+	reg("fails3x2", "3 types, <=2 single-input converters with error results, every subset failing", chains(3, 2, true))
+	reg("fails3x3", "as fails3x2 with <=3 converters (chain depth 3)", chains(3, 3, true))
+}
+
+// chainsX: unlabelled converter graphs. errMaxIn bounds the inputs of error-returning
+// converters; typedNil switches failing converters to typed-nil errors.
+func chainsX(ntypes, maxConvs int, hasErr bool, errMaxIn int, typedNil bool) func(size int, emit func(Scenario)) {
+	{
 		return func(size int, emit func(Scenario)) {
 			var types []int
 			for i := 0; i < ntypes; i++ {
@@ -218,11 +234,11 @@ func init() {
 			for _, in := range subsetsUpTo(ntypes, 2) {
 				for _, out := range types {
 					if hasErr {
-						if len(in) > 1 {
+						if len(in) > errMaxIn {
 							continue
 						}
 						for _, fails := range []bool{false, true} {
-							convs = append(convs, FuncSpec{In: pick(tl, in), Out: []Label{tl[out]}, InForm: FormPositional, OutForm: FormPositional, HasErr: true, Fails: fails})
+							convs = append(convs, FuncSpec{In: pick(tl, in), Out: []Label{tl[out]}, InForm: FormPositional, OutForm: FormPositional, HasErr: true, Fails: fails, TypedNil: fails && typedNil})
 						}
 					} else {
 						convs = append(convs, FuncSpec{In: pick(tl, in), Out: []Label{tl[out]}, InForm: FormPositional, OutForm: FormPositional})
@@ -244,6 +260,17 @@ func init() {
 						if !distinctFuncTypes(cl) {
 							continue
 						}
+						if typedNil {
+							nf := 0
+							for _, c := range cl {
+								if c.Fails {
+									nf++
+								}
+							}
+							if nf != 1 {
+								continue
+							}
+						}
 						t := FuncSpec{ID: "tgt", In: pick(tl, tp), InForm: FormPositional, OutForm: FormPositional}
 						// a converter with the target's own Go type would share its vertex
 						clash := false
@@ -261,12 +288,6 @@ func init() {
 			}
 		}
 	}
-	reg("chains3x2", "unlabelled, 3 types, <=2 converters of <=2 inputs, 1-2 parameters, <=2 inputs (every 1-/2-cycle, self- and mutually dependent converters, providers)", chains(3, 2, false))
-	reg("chains3x3", "as chains3x2 with <=3 converters", chains(3, 3, false))
-	reg("chains4x2", "as chains3x2 over 4 types", chains(4, 2, false))
-	reg("chains4x3", "as chains3x2 over 4 types with <=3 converters", chains(4, 3, false))
-	reg("fails3x2", "3 types, <=2 single-input converters with error results, every subset failing", chains(3, 2, true))
-	reg("fails3x3", "as fails3x2 with <=3 converters (chain depth 3)", chains(3, 3, true))
 }
 
 // TierSize enumerates a tier and returns its size.
